@@ -1,18 +1,21 @@
-(* C10 - the ownership ledger of sc_notify_recursive (binary notify), regenerated from src/sc_notify.c on every run
-   (Gen/LedgerC10.v), is balanced on every path. *)
-From Coq Require Import ZArith List String Bool.
+(* C10 - the ownership ledgers regenerated from the source on every run (Gen/LedgerC10.v) are balanced on every path:
+   one level of the binary notify recursion, the rehash of a hash table, and the create / destroy pairs of sc_hash,
+   sc_hash_array and sc_keyvalue. *)
+From Coq Require Import ZArith List String Bool Arith.
 From ScV Require Import C10.LedgerModel Gen.LedgerC10.
 Import ListNotations.
 
-(* every branch condition becomes true / false (whatever their number is); the remaining closed term is evaluated *)
-Ltac all_paths c :=
+(* every branch condition c n that occurs becomes true / false (whatever their number is) *)
+Ltac paths c :=
   repeat match goal with
          | |- context [c ?n] => destruct (c n)
-         end; vm_compute; reflexivity.
+         end.
+Ltac all_paths c := paths c; vm_compute; reflexivity.
 
 Definition only_uses (a : string) (l : list lev) : bool :=
   forallb (fun e => match e with LUse x => String.eqb x a | _ => false end) l.
 
+(* ---- sc_notify_recursive *)
 (* the statements in front of the slice (recursive call, computation of the peers) only hand the caller's array to
    the function itself *)
 Lemma notify_recursive_prefix_only_uses : forall c : nat -> bool,
@@ -27,15 +30,91 @@ Lemma notify_recursive_ledger_balanced : forall c : nat -> bool,
   balanced_run "array" (notify_recursive_ledger_b c) (entry_empty "array") = true.
 Proof. intros c; unfold notify_recursive_ledger_b; split; all_paths c. Qed.
 
+(* ---- sc_hash_maybe_resize *)
+(* entered with hash->slots pointing to a heap array that holds the slot block: on the paths that decide not to resize
+   nothing changes hands; on the resizing paths exactly one heap array - the one hash->slots points to afterwards - and
+   exactly its block are left: the old structure AND the old block are gone, the new ones are not lost *)
+Lemma hash_resize_prefix_balanced : forall c : nat -> bool,
+  balanced_heap_run "hash->slots" (hash_resize_prefix_b c) (entry_heap "hash->slots") = true.
+Proof. intros c; unfold hash_resize_prefix_b; all_paths c. Qed.
+
+Lemma hash_resize_ledger_balanced : forall c1 c2 : nat -> bool,
+  balanced_heap_run "hash->slots" (hash_resize_prefix_b c1 ++ hash_resize_ledger_b c2) (entry_heap "hash->slots") = true.
+Proof. intros c1 c2; unfold hash_resize_prefix_b, hash_resize_ledger_b; paths c1; all_paths c2. Qed.
+
+(* ---- create / destroy pairs: afterwards the live heap objects and blocks are those from before *)
+(* sc_hash_new; sc_hash_destroy.  cn 0 = "an allocator was handed in", cd 0 = hash->allocator_owned: the flag is set
+   to the negation in sc_hash_new (hypothesis; the flag itself is data, not ownership).  The caller's allocator (an
+   external heap object) is still there afterwards, the own one is gone. *)
+Lemma hash_new_destroy_restored : forall cn cd : nat -> bool, cd 0%nat = negb (cn 0%nat) ->
+  restored_run (hash_new_ledger_b cn ++ hash_destroy_ledger_b cd) (entry_ext "allocator") = true.
+Proof. intros cn cd H; unfold hash_new_ledger_b, hash_destroy_ledger_b; try rewrite H; paths cn; all_paths cd. Qed.
+
+Lemma hash_new_unlink_destroy_restored : forall cn cd : nat -> bool, cd 0%nat = negb (cn 0%nat) ->
+  restored_run (hash_new_ledger_b cn ++ hash_unlink_destroy_ledger_b cd) (entry_ext "allocator") = true.
+Proof. intros cn cd H; unfold hash_new_ledger_b, hash_unlink_destroy_ledger_b; try rewrite H; paths cn; all_paths cd. Qed.
+
+(* a rehash between creation and destruction *)
+Lemma hash_new_resize_destroy_restored : forall cn c1 c2 cd : nat -> bool, cd 0%nat = negb (cn 0%nat) ->
+  restored_run (hash_new_ledger_b cn ++ hash_resize_prefix_b c1 ++ hash_resize_ledger_b c2 ++ hash_destroy_ledger_b cd) (entry_ext "allocator") = true.
+Proof.
+  intros cn c1 c2 cd H; unfold hash_new_ledger_b, hash_resize_prefix_b, hash_resize_ledger_b, hash_destroy_ledger_b;
+    try rewrite H; paths cn; paths c1; paths c2; all_paths cd.
+Qed.
+
+Lemma hash_array_new_destroy_restored : forall cn cd : nat -> bool,
+  restored_run (hash_array_new_ledger_b cn ++ hash_array_destroy_ledger_b cd) entry_none = true.
+Proof. intros cn cd; unfold hash_array_new_ledger_b, hash_array_destroy_ledger_b; paths cn; all_paths cd. Qed.
+
+(* sc_hash_array_rip: everything is freed but the element block, which the caller's structure `rip` holds *)
+Lemma hash_array_new_rip_balanced : forall cn cr : nat -> bool,
+  balanced_run "rip" (hash_array_new_ledger_b cn ++ hash_array_rip_ledger_b cr) entry_none = true.
+Proof. intros cn cr; unfold hash_array_new_ledger_b, hash_array_rip_ledger_b; paths cn; all_paths cr. Qed.
+
+Lemma keyvalue_new_destroy_restored : forall cn cd : nat -> bool,
+  restored_run (keyvalue_new_ledger_b cn ++ keyvalue_destroy_ledger_b cd) entry_none = true.
+Proof. intros cn cd; unfold keyvalue_new_ledger_b, keyvalue_destroy_ledger_b; paths cn; all_paths cd. Qed.
+
+(* ---- what the predicates say *)
+Lemma l_eqlist_eq : forall a b, l_eqlist a b = true -> a = b.
+Proof.
+  induction a as [|x r IH]; destruct b as [|y s]; simpl; intros H; try discriminate; [reflexivity|].
+  apply andb_prop in H. destruct H as [H1 H2]. apply Nat.eqb_eq in H1. subst. f_equal. apply IH. exact H2.
+Qed.
+
 Lemma balanced_run_meaning : forall a l st, balanced_run a l st = true ->
   exists st', l_run l st = Some st' /\ l_heap st' = [] /\
-    (l_live st' = [] /\ l_lookup a (l_vars st') = Empty \/ exists b, l_live st' = [b] /\ l_lookup a (l_vars st') = Own b).
+    (l_live st' = [] /\ (exists o, l_deref a st' = Some (o, Empty)) \/ exists o b, l_live st' = [b] /\ l_deref a st' = Some (o, Own b)).
 Proof.
   intros a l st H. unfold balanced_run in H. destruct (l_run l st) as [st'|]; [|discriminate].
-  exists st'. split; [reflexivity|]. unfold balancedb in H.
-  destruct (l_heap st'); [|discriminate]. split; [reflexivity|].
-  destruct (l_lookup a (l_vars st')) as [| |b]; [discriminate| |].
-  - destruct (l_live st'); [left; split; reflexivity|discriminate].
-  - destruct (l_live st') as [|c [|d r]]; try discriminate.
-    apply Nat.eqb_eq in H. subst c. right. exists b. split; reflexivity.
+  exists st'. split; [reflexivity|]. unfold balancedb, l_holds in H.
+  destruct (l_deref a st') as [[o d]|]; [|discriminate].
+  destruct d as [| |b]; [discriminate| |]; apply andb_prop in H; destruct H as [H1 H2];
+    apply l_eqlist_eq in H1; apply l_eqlist_eq in H2; (split; [exact H1|]).
+  - left. split; [exact H2|]. exists o. reflexivity.
+  - right. exists o, b. split; [exact H2|reflexivity].
+Qed.
+
+Lemma balanced_heap_run_meaning : forall a l st, balanced_heap_run a l st = true ->
+  exists st' o, l_run l st = Some st' /\ l_var a (l_vars st') = Some o /\ l_heap st' = [o] /\
+    (l_live st' = [] /\ l_deref a st' = Some (o, Empty) \/ exists b, l_live st' = [b] /\ l_deref a st' = Some (o, Own b)).
+Proof.
+  intros a l st H. unfold balanced_heap_run in H. destruct (l_run l st) as [st'|]; [|discriminate].
+  unfold balanced_heapb in H. destruct (l_var a (l_vars st')) as [o|] eqn:Ev; [|discriminate].
+  exists st', o. split; [reflexivity|]. split; [exact Ev|]. unfold l_holds in H.
+  assert (Hd : forall p d, l_deref a st' = Some (p, d) -> p = o).
+  { intros p d. unfold l_deref. rewrite Ev. destruct (l_obj o (l_objs st')); intros E; inversion E; reflexivity. }
+  destruct (l_deref a st') as [[p d]|] eqn:Ed; [|discriminate].
+  rewrite (Hd p d eq_refl) in *.
+  destruct d as [| |b]; [discriminate| |]; apply andb_prop in H; destruct H as [H1 H2];
+    apply l_eqlist_eq in H1; apply l_eqlist_eq in H2; (split; [exact H1|]).
+  - left. split; [exact H2|reflexivity].
+  - right. exists b. split; [exact H2|reflexivity].
+Qed.
+
+Lemma restored_run_meaning : forall l st, restored_run l st = true ->
+  exists st', l_run l st = Some st' /\ l_heap st' = l_heap st /\ l_live st' = l_live st.
+Proof.
+  intros l st H. unfold restored_run in H. destruct (l_run l st) as [st'|]; [|discriminate].
+  apply andb_prop in H. destruct H as [H1 H2]. exists st'. split; [reflexivity|]. split; apply l_eqlist_eq; assumption.
 Qed.
